@@ -261,6 +261,8 @@ def wiring_real(p, inputs):
                              chrom1=cols["chrom1"] + 1, pos1=cols["pos1"] + 1, chrom2=cols["chrom2"] + 1, pos2=cols["pos2"] + 1)
         except Exception as e:  # noqa
             raise OracleFailure(f"cload pairs with fields at columns {cols} failed: {type(e).__name__}: {str(e)[:150]}")
+        from .model import validity_real
+        validity_real(out)   # text loading is one of C02's producers
         tab = cooler.Cooler(out).pixels()[:]
         got = sorted(zip(tab["bin1_id"], tab["bin2_id"], tab["count"], tab["x"]))
         want = [(0, 2, 2, 8), (0, 5, 1, 2)]
@@ -278,6 +280,8 @@ def wiring_real(p, inputs):
                         storage_options=None, append=False)
     except Exception as e:  # noqa
         raise OracleFailure(f"load with count at column {a}, x at column {b} failed: {type(e).__name__}: {str(e)[:150]}")
+    from .model import validity_real
+    validity_real(out)
     tab = cooler.Cooler(out).pixels()[:]
     got = [tuple(int(y) for y in g) for g in zip(tab["bin1_id"], tab["bin2_id"], tab["count"], tab["x"])]
     if got != [(0, 2, 5, 9), (1, 3, 4, 3)]:
